@@ -16,6 +16,7 @@ pub mod pool;
 pub mod prefetch;
 pub mod secure_pool;
 pub mod simd_ops;
+mod tagged_head;
 pub mod threadlocal_pool;
 pub mod tiered;
 
